@@ -47,7 +47,7 @@ def readRows (L : Layout) : Nat → List Byte → Option (List Point)
       | some pts, some rest => some (pts ++ rest)
       | _, _ => none
 
-inductive DecodeErr | short | long
+inductive DecodeErr | short | long | inconsistent
 deriving Repr, DecidableEq
 
 /-- the strict reader -/
@@ -58,6 +58,16 @@ def decode (L : Layout) (bs : List Byte) : Except DecodeErr (Arr Point) :=
     match readRows L L.rows (bs.drop L.hdr) with
     | none => .error .short
     | some pts => .ok (transpose ⟨L.fileShape, pts⟩ L.perm)
+
+/-- bytes of the data section the extents imply -/
+def Layout.dataBytes (L : Layout) : Nat := L.rows * L.rowBytes
+
+/-- formats whose header ALSO states the byte length of the data section (TNMR's DATA tag): the stated
+    length must be the one the extents imply, whatever follows the data -/
+def decodeDeclared (L : Layout) (declared : Option Nat) (bs : List Byte) : Except DecodeErr (Arr Point) :=
+  match declared with
+  | some n => if n ≠ L.dataBytes then .error .inconsistent else decode L bs
+  | none => decode L bs
 
 /-- inverse permutation -/
 def invPerm (p : List Nat) : List Nat := (List.range p.length).map (fun j => p.idxOf j)
